@@ -323,6 +323,8 @@ pub fn loop_programs(tier: Tier) -> Vec<Prog> {
             vec![(Cond::None, StepK::Acts(vec![(ActK::Irq, Cond::None)]))],
             vec![(Cond::None, StepK::Acts(vec![(ActK::Msg, Cond::None)]))],
             vec![(Cond::A, StepK::Acts(vec![(ActK::Irq, Cond::None)]))],
+            // a needs branch in the head: in every round it waits for the needed sibling of that round
+            vec![(Cond::None, StepK::Branches(vec![(BrK::IfB, Body::Act(ActK::Irq, Cond::None)), (BrK::Needs(0), Body::Act(ActK::Irq, Cond::None))]))],
         ];
         if tier == Tier::Thorough {
             h.push(vec![(Cond::None, StepK::Leaf), (Cond::None, StepK::Acts(vec![(ActK::Irq, Cond::A)]))]);
@@ -333,8 +335,9 @@ pub fn loop_programs(tier: Tier) -> Vec<Prog> {
     };
     for head in &heads {
         let li = head.len();
+        let needs_head = matches!(&head[0].1, StepK::Branches(_));
         for n in [1i64, 2, 3] {
-            if n == 3 && tier == Tier::Quick {
+            if tier == Tier::Quick && (n == 3 || (n == 2 && needs_head)) {
                 continue;
             }
             for target in 0..=li {
@@ -850,7 +853,7 @@ impl Check for C04 {
         CheckInfo {
             id: "C04",
             level: "model_checking",
-            rule: "every workflow of the grammar `workflow := step{1..3}; step := [if A|B] (leaf | act{1..2} | branch{2..3} | branch{2} + act); act := (irq | msg | set a:=1) [if A]; branch := (if A | if B | else | needs:[an if-sibling]) body; body := none | leaf step | step with one irq/msg act [if A]` up to the node budget, plus the loop family (a guarded branch, `if a < n` or the else of `if a >= n`, whose body increments a and jumps back with `next` to an earlier step or to its own step; n <= 2 or 3; four or seven kinds of loop head); every valuation of the variables used, every order of queued tasks and client answers (exhaustive when <= 2 regions can be open, deviation bound otherwise); compared with a reference interpretation: the instances of every node in creation order, their final states, and the order edges (step after predecessor, acts one after another, body after its branch, needs after the needed sibling, container ends after its children, re-entered step after the jumping step). Threaded variant: the interrupts of parallel branches are completed by two or three client threads with preemption at every engine scheduling point up to the bound, same oracle.".into(),
+            rule: "every workflow of the grammar `workflow := step{1..3}; step := [if A|B] (leaf | act{1..2} | branch{2..3} | branch{2} + act); act := (irq | msg | set a:=1) [if A]; branch := (if A | if B | else | needs:[an if-sibling]) body; body := none | leaf step | step with one irq/msg act [if A]` up to the node budget, plus the loop family (a guarded branch, `if a < n` or the else of `if a >= n`, whose body increments a and jumps back with `next` to an earlier step or to its own step; n <= 2 or 3; five or eight kinds of loop head, one with a needs branch); every valuation of the variables used, every order of queued tasks and client answers (exhaustive when <= 2 regions can be open, deviation bound otherwise); compared with a reference interpretation: the instances of every node in creation order, their final states, and the order edges (step after predecessor, acts one after another, body after its branch, needs after the needed sibling, container ends after its children, re-entered step after the jumping step). Threaded variant: the interrupts of parallel branches are completed by two or three client threads with preemption at every engine scheduling point up to the bound, same oracle.".into(),
             assumptions: vec![
                 "don't-care where the text decides nothing: a needs branch whose needed sibling was skipped by its condition; the final state of the containers a jump leaves behind (C03 judges those)".into(),
                 "`set` acts are not placed beside branches or inside branch bodies (they would race with conditions by construction); jumps only out of a guarded branch (an unguarded backward jump never ends)".into(),
